@@ -2249,6 +2249,17 @@ class Exec:
             return self.iter_items(outs[0][1], st)
         if isinstance(it, VDict):
             return [k for k, _ in it.pairs]
+        if isinstance(it, (VBytes, VBuf)):
+            S = self.seq(it, st)
+            n = self.concretize(st, z3.Length(S), 1)
+            if n is None or len(n) != 1 or n[0] > 64:
+                raise ToolLimit('iteration over octets of unknown length needs an invariant')
+            out = []
+            for j in range(n[0]):
+                e = S[j]
+                st.facts.append(z3.And(e >= 0, e < 256))
+                out.append(VInt(e))
+            return out
         if isinstance(it, VRange):
             step = getattr(it, 'step', 1)
             lo = it.lo.conc()
